@@ -145,6 +145,8 @@ def strict_equal(a, b):
     if type(a) in (list, tuple):
       # Lists compare equal when their elements do, and for elements 1 == 1.0 == True.
       return len(a) == len(b) and all(strict_equal(x, y) for (x, y) in zip(a, b))
+    if type(a) is dict:
+      return a.keys() == b.keys() and all(strict_equal(v, b[k]) for (k, v) in a.items())
     return a == b
   except Exception:
     return False
